@@ -1,5 +1,7 @@
 """C12 - output targets act as an append-only byte log with safe reservations."""
 import codec
+import guards
+import rule_scopes
 from props import c11
 
 EXPLANATION = (
@@ -16,8 +18,13 @@ ASSUMPTIONS = ['rustc type checking and MIR construction', 'core/alloc functions
 THOROUGH_CONFIGS = ['codec-alloc', 'release']
 
 
+
+def r_buffer_preconditions(r, prog):
+    guards.evaluate(r, prog, rule_scopes.guards_codec_buffer, 'guards_codec_buffer.json', 75)
+
 def run(ctx):
     prog = ctx.prog
+    ctx.run_rule('C12.6', 'T13', 'conditions under which targets and sources write, advance, reserve, refuse and return (precondition ledger)', r_buffer_preconditions, prog)
     ctx.run_rule('C12.1a', 'T2', 'no write to the target/source precedes an error return', codec.r_failure_leaves_no_trace, prog)
     ctx.run_rule('C12.1b', 'T1', 'peek_* / remaining never modify', codec.r_peek_never_consumes, prog)
     ctx.run_rule('C12.1c', 'T10', 'position advances by exactly the checked count on the success edge', codec.r_read_advances_by_checked_count, prog)
